@@ -625,7 +625,30 @@ def check_tag_filter(ctx, db):
             ok = d is None
             ctx.check(ok, 'R-CLONE', 'read_gds/ENDEL-filter:polygon~path', pf.loc(), 'the polygon and path tag-filter blocks are the same code', None if d is None else 'filter blocks differ at line %d: `%s` vs `%s`' % d)
             cond = norm(pf.child('cond').text())
-            okc = re.match(r'^\(\(shape_tags && \(!shape_tags->has_value\(polygon->tag\)\)\) && cell\)$', cond) is not None
+            # the condition, evaluated for every combination of {no filter, filter holding the tag, filter lacking it} x {no cell, cell}:
+            # the element is dropped exactly when a filter is given, lacks the tag, and there is a cell to take it out of
+            from .. import minieval as _M
+            okc = True
+            for filt in (None, True, False):
+                for has_cell in (0, 1):
+                    def _hook(callee, args, node, filt=filt):
+                        if (callee or '').endswith('::has_value'):
+                            return (int(bool(filt)),)
+                        return None
+                    mi_ = _M.Mini(db, hook=_hook, budget=2000)
+                    mi_.obj_store = True
+                    env_ = {}
+                    for x_ in pf.child('cond').walk():
+                        if x_.k == 'DeclRefExpr' and x_.dk in ('local', 'param'):
+                            env_[x_.n] = (_M.Obj(tag=5) if x_.n not in ('shape_tags', 'cell') else None)
+                    env_['shape_tags'] = 0 if filt is None else _M.Obj(set=True)
+                    env_['cell'] = _M.Obj(present=1) if has_cell else 0
+                    try:
+                        got_ = bool(mi_.ev(pf.child('cond'), env_))
+                    except AnalysisBroken:
+                        got_ = None
+                    if got_ != (filt is False and bool(has_cell)):
+                        okc = False
             acts = norm(clone.canon(pf.child('then'), f))
             oka = 'remove_unordered' in acts and 'remove_item' in acts and '->clear()' in acts and 'free_allocation' in acts
             ctx.check(okc and oka, 'R-SHAPE', 'read_gds/ENDEL-filter:shape', pf.loc(), 'an element is dropped only when a filter is given and lacks its tag; it is removed from the cell, cleared and freed',
